@@ -6,7 +6,6 @@ t = open(os.path.join(here, "roles.rs.tmpl")).read()
 OPER = '''
 // HARNESS props=C06 tier=quick profile=roles shape="@TYPE@::transfer_operatorship; operator and owner independent principals"
 #[kani::proof]
-#[kani::unwind(68)]
 fn c06_transfer_operatorship() {
     use axelar_soroban_std::interfaces::OperatableInterface as _;
     let (env, owner) = base();
